@@ -6,6 +6,7 @@ package main
 
 import (
 	"fmt"
+	"go/constant"
 	"go/token"
 	"go/types"
 	"strings"
@@ -657,7 +658,155 @@ func ruleR12w(c *Ctx, r *Report) {
 		r.Undec(key, c.Pos(fn.Pos()), "neither Cid.Equals nor any per-root bookkeeping found in CarHeader.Matches")
 		return
 	}
+	// the two sides of the comparison are the two headers: a root of the one is never held against
+	// the list it was taken from
+	if side := sameSideComparison(fn); side != "" {
+		r.Viol("roots-of-both-headers@"+fnKey(fn), side, "CarHeader.Matches holds a root of one header against the roots of that same header at "+side+" (the receiver where the argument belongs): every list matches itself, so any two headers with the same number of roots match and a session with other roots is resumed on the file")
+	} else {
+		r.Hold("roots-of-both-headers@"+fnKey(fn), c.Pos(fn.Pos()), "no root is compared with the list it came from")
+	}
 	r.Check(state, key, c.Pos(fn.Pos()), "the comparison marks, counts or sorts: each root is matched at most once", "CarHeader.Matches decides by containment alone (no entry is marked, counted or sorted): a file with roots [A A] matches a request for [A B], so a session with different roots is resumed on it — its index is cut off and its header zeroed — instead of being refused with the file untouched")
+}
+
+// paramBehind: the parameter of its function a value is read out of — through field reads,
+// element reads, the spill cell of a by-value parameter and merges that agree.
+func paramBehind(v ssa.Value, depth int) *ssa.Parameter {
+	if v == nil || depth > 10 {
+		return nil
+	}
+	switch x := v.(type) {
+	case *ssa.Parameter:
+		return x
+	case *ssa.UnOp:
+		if x.Op == token.MUL {
+			return paramBehind(x.X, depth+1)
+		}
+	case *ssa.FieldAddr:
+		return paramBehind(x.X, depth+1)
+	case *ssa.Field:
+		return paramBehind(x.X, depth+1)
+	case *ssa.IndexAddr:
+		return paramBehind(x.X, depth+1)
+	case *ssa.Index:
+		return paramBehind(x.X, depth+1)
+	case *ssa.Slice:
+		return paramBehind(x.X, depth+1)
+	case *ssa.Extract:
+		if nx, ok := x.Tuple.(*ssa.Next); ok {
+			return paramBehind(nx.Iter, depth+1)
+		}
+	case *ssa.Range:
+		return paramBehind(x.X, depth+1)
+	case *ssa.Alloc:
+		var p *ssa.Parameter
+		for _, st := range storesTo(x) {
+			q := paramBehind(st.Val, depth+1)
+			if q == nil || p != nil && p != q {
+				return nil
+			}
+			p = q
+		}
+		return p
+	case *ssa.Phi:
+		var p *ssa.Parameter
+		for _, e := range x.Edges {
+			if e == ssa.Value(x) {
+				continue
+			}
+			q := paramBehind(e, depth+1)
+			if q == nil || p != nil && p != q {
+				return nil
+			}
+			p = q
+		}
+		return p
+	}
+	return nil
+}
+
+// sameSideComparison: in fn, a Cid.Equals whose two operands are read out of the same parameter, or
+// a call of a helper on a header with a root read out of that same header; the position, or "".
+func sameSideComparison(fn *ssa.Function) string {
+	pos := ""
+	for _, g := range withNewCallees(fn) {
+		eachInstr(g, func(in ssa.Instruction) {
+			ci, ok := in.(*ssa.Call)
+			if !ok || ci.Common().IsInvoke() || len(ci.Common().Args) < 2 {
+				return
+			}
+			args := ci.Common().Args
+			p0 := paramBehind(args[0], 0)
+			if p0 == nil || p0.Parent() != fn {
+				return
+			}
+			f := calleeFunc(ci.Common())
+			switch {
+			case funcIs(f, pkgCid, "Cid", "Equals"):
+				if paramBehind(args[1], 0) == p0 {
+					pos = fn.Prog.Fset.Position(ci.Pos()).String()
+				}
+			case f != nil && f.Pkg() != nil && f.Pkg().Path() == pkgV1 && namedOf(args[0].Type()) != nil && namedOf(args[0].Type()).Obj().Name() == "CarHeader":
+				for _, a := range args[1:] {
+					if isNamed(a.Type(), pkgCid, "Cid") && paramBehind(a, 0) == p0 {
+						pos = fn.Prog.Fset.Position(ci.Pos()).String()
+					}
+				}
+			}
+		})
+	}
+	if i := strings.Index(pos, "/v2/"); i >= 0 {
+		pos = pos[i+1:]
+	}
+	if f := strings.Split(pos, ":"); len(f) == 3 {
+		pos = f[0] + ":" + f[1]
+	}
+	return pos
+}
+
+// R03B: MultihashIndexSorted.Load gives each hash function's bucket the records of that hash
+// function: what it hands to the bucket's Load is the group it has just taken out of its
+// by-code map (the value of the range, or a lookup in that map) — not the list it was given, which
+// holds the records of every hash function.
+func ruleR03B(c *Ctx, r *Report) {
+	fn, err := c.Func(pkgIndex, "MultihashIndexSorted", "Load")
+	if err != nil {
+		r.InfraFail("%v", err)
+		return
+	}
+	key := "bucket-gets-its-group@" + fnKey(fn)
+	n, bad := 0, ""
+	eachInstr(fn, func(in ssa.Instruction) {
+		ci, ok := in.(*ssa.Call)
+		if !ok {
+			return
+		}
+		f := calleeFunc(ci.Common())
+		if !funcIs(f, pkgIndex, "multiWidthIndex", "Load") && !funcIs(f, pkgIndex, "multiWidthCodedIndex", "Load") {
+			return
+		}
+		n++
+		args := ci.Common().Args
+		arg := canon(args[len(args)-1])
+		fromMap := false
+		switch x := arg.(type) {
+		case *ssa.Extract:
+			if nx, ok := x.Tuple.(*ssa.Next); ok && !nx.IsString && x.Index == 2 {
+				fromMap = true
+			}
+		case *ssa.Lookup:
+			_, fromMap = x.X.Type().Underlying().(*types.Map)
+		}
+		if p := paramBehind(arg, 0); p != nil && p.Parent() == fn {
+			bad = fmt.Sprintf("at %s the bucket of one hash function is loaded with the whole list Load was given: every bucket then holds every record, a digest is found under a hash function it was never stored under, and ForEach lists each section once per hash function", c.Pos(ci.Pos()))
+		} else if !fromMap && bad == "" {
+			bad = fmt.Sprintf("what the bucket is loaded with at %s is not a group taken from the by-code map", c.Pos(ci.Pos()))
+		}
+	})
+	if n == 0 {
+		r.Undec(key, c.Pos(fn.Pos()), "no bucket Load found in MultihashIndexSorted.Load")
+		return
+	}
+	r.Check(bad == "", key, c.Pos(fn.Pos()), "each bucket is loaded with its own group of the by-code map", bad)
 }
 
 // R15t: the counting pass and the writing pass agree on a block that is loaded again. The teeing link
@@ -1283,4 +1432,115 @@ func ruleR09x(c *Ctx, r *Report) {
 		bad = "no test refuses a length whose conversion to int64 is negative"
 	}
 	r.Check(bad == "", key, c.Pos(fn.Pos()), "int64(dataLen [+ extra]) < 0 is refused", bad)
+}
+
+// R15w: in traversalCar.WriteV2Header the zero bytes written behind the CARv2 header bring the
+// stream to DataOffset: their number is DataOffset minus everything written so far — the pragma
+// AND the header. (With only one of the two subtracted the payload starts 40 or 11 bytes behind
+// the offset the header announces, whenever data padding is set.)
+func ruleR15w(c *Ctx, r *Report) {
+	fn, err := c.Func(modV2, "traversalCar", "WriteV2Header")
+	if err != nil {
+		r.InfraFail("%v", err)
+		return
+	}
+	key := "padding-reaches-data-offset@" + fnKey(fn)
+	var pragmaW, headerW *ssa.Call
+	eachInstr(fn, func(in ssa.Instruction) {
+		ci, ok := in.(*ssa.Call)
+		if !ok {
+			return
+		}
+		if f := calleeFunc(ci.Common()); funcIs(f, modV2, "Header", "WriteTo") {
+			headerW = ci
+			return
+		}
+		if ci.Common().IsInvoke() && ci.Common().Method.Name() == "Write" && len(ci.Common().Args) == 1 && isGlobalLoad(canon(ci.Common().Args[0]), modV2, "Pragma") {
+			pragmaW = ci
+		}
+	})
+	var pads []*ssa.MakeSlice
+	eachInstr(fn, func(in ssa.Instruction) {
+		if ms, ok := in.(*ssa.MakeSlice); ok {
+			pads = append(pads, ms)
+		}
+	})
+	if pragmaW == nil || headerW == nil || len(pads) == 0 {
+		r.Undec(key, c.Pos(fn.Pos()), "the pragma write, the header write or the padding buffer was not found")
+		return
+	}
+	env := &AffEnv{name: func(v ssa.Value) string {
+		if ex, ok := canon(v).(*ssa.Extract); ok && ex.Index == 0 {
+			switch ex.Tuple {
+			case ssa.Value(pragmaW):
+				return "P"
+			case ssa.Value(headerW):
+				return "H"
+			}
+		}
+		if fv, _ := fieldOfLoad(canon(v)); fv != nil && fv.Name() == "DataOffset" {
+			return "DO"
+		}
+		return ""
+	}}
+	want := affAtom("DO").add(affAtom("P"), -1).add(affAtom("H"), -1)
+	bad := ""
+	for _, ms := range pads {
+		if got := env.of(ms.Len); !got.equal(want) {
+			bad = fmt.Sprintf("the padding written at %s is %s bytes long (DO = DataOffset, P = bytes of the pragma, H = bytes of the header); it has to be %s for the payload to start at DataOffset", c.Pos(ms.Pos()), got.String(), want.String())
+		}
+	}
+	r.Check(bad == "", key, c.Pos(fn.Pos()), "padding = DataOffset - pragma - header", bad)
+}
+
+// R17i: "write to standard output" is what the caller said — the name it passed, compared with "-" —
+// and never a path the function derived from it (the resolved directory is "" in that mode, not "-":
+// tested in its place the bare-file root is created under a name resolved against an empty
+// directory, in the working directory).
+func ruleR17i(c *Ctx, r *Report) {
+	n := 0
+	for _, name := range []string{"ExtractToDir", "extractFile"} {
+		fn, err := c.Func(pkgCmdLib, "", name)
+		if err != nil {
+			r.InfraFail("%v", err)
+			continue
+		}
+		key := "stdout-test-on-the-argument@" + fnKey(fn)
+		bad := ""
+		for _, g := range withAnon(fn) {
+			eachInstr(g, func(in ssa.Instruction) {
+				b, ok := in.(*ssa.BinOp)
+				if !ok || b.Op != token.EQL && b.Op != token.NEQ {
+					return
+				}
+				for _, xy := range [][2]ssa.Value{{b.X, b.Y}, {b.Y, b.X}} {
+					k, ok := xy[1].(*ssa.Const)
+					if !ok || k.Value == nil || k.Value.Kind() != constant.String || constant.StringVal(k.Value) != "-" {
+						continue
+					}
+					n++
+					v := canon(xy[0])
+					if fvb, isFV := v.(*ssa.FreeVar); isFV {
+						if bnd := freeVarBinding(fvb); bnd != nil {
+							v = canon(bnd)
+						}
+					}
+					if l, isLoad := v.(*ssa.UnOp); isLoad && l.Op == token.MUL {
+						if al, isAl := l.X.(*ssa.Alloc); isAl {
+							if sts := storesTo(al); len(sts) == 1 {
+								v = canon(sts[0].Val)
+							}
+						}
+					}
+					if _, isParam := v.(*ssa.Parameter); !isParam {
+						bad = fmt.Sprintf("the test for \"-\" at %s is made on a value the function computed, not on the name the caller passed: in standard-output mode that value is not \"-\", so the branch meant for a directory runs without one", c.Pos(b.Pos()))
+					}
+				}
+			})
+		}
+		r.Check(bad == "", key, c.Pos(fn.Pos()), "every comparison with \"-\" is on a parameter", bad)
+	}
+	if n == 0 {
+		r.Undec("stdout-test-on-the-argument@cmd/car/lib", "-", "no comparison with \"-\" found in ExtractToDir / extractFile")
+	}
 }
